@@ -6,6 +6,9 @@ CONFIG = {
         # the designation layer: histories on a private BBSHOME (what a url line / listing id / cross-post
         # reference leads back to); a replay holds the whole history since its `reset`
         {"name": "designate", "pkg": "c13d", "bin": "c13d", "driver": "drv_c13", "reset_prefix": "reset"},
+        # the concurrent round trips of the codec pass once more under the Go race detector
+        {"name": "race", "pkg": "c13", "bin": "c13race", "driver": "drv_c13", "build_flags": ["-race"], "args": ["-raceonly"],
+         "thorough_only": True, "timeout": 900},
     ],
     "trusted_base": [
         "fmt %d/%03X, strconv.Atoi/ParseUint: modelled by digit functions; agreement checked by the correspondence on every run",
@@ -14,19 +17,29 @@ CONFIG = {
         "model in the `reset` line (the harness refuses a line that does not state the values the code runs with)",
         "resolveURL/resolveLine (strip display name, URL_PREFIX, board, '.html' or decode the 8 characters) is the reader's side of the "
         "property, not repository code: its Go counterpart in c13d uses the real bbs.ArticleID.ToRaw and is compared with the model on every url line",
-        "go/cmd/c13 hands a replay that is a designation history over to the sibling binary c13d (./check routes corpus-recorded replays to the first pass)",
+        "purity of the codec functions (a returned value does not change when the function is called again, an argument is not changed, concurrent "
+        "callers do not disturb each other) is not a theorem about the Lean model — there the functions are values — but what the tie checks: `hold` keeps "
+        "the pointers the real functions return across later calls and re-reads them; `conc` runs goroutines x names in a process of its own (under the "
+        "Go race detector in the thorough-only pass `race`); both are judged against the single-call answers",
+        "the position cmsys.FindRecordStartIdx proposes is modelled and proved under C06; C13 proves the confirmation step for an ARBITRARY proposal "
+        "(resolveId_designates / resolveId_absent) and ties Filename_t.Eq and cmsys.GetRecord (on indexes in time order with one entry per time+suffix) differentially",
     ],
     "modelled": ["Filename_t.ToAidu/Type/CreateTime/Postfix", "Aidu.ToFN/ToAidc/Type/Time/Postfix", "Aidc.ToAidu",
                  "bbs.ToArticleID", "bbs.ArticleID.ToRaw",
                  "ptt.GetWebURL (both USE_AID_URL values) and the url line ptt.DoPostArticle appends (webURL, urlLine)",
                  "bbs.NewArticleSummaryFromRaw: ArticleID / IsDeleted / Filename of a listing entry and of the answer of CreateArticle / CrossPost (listEntry)",
                  "the #<aidc> reference ptt.crossPostWriteFile prints (aidcText)",
+                 "Filename_t.Eq (filenameEq) and the confirmation at the end of cmsys.GetRecord (confirmWith / resolveId / lookupId)",
                  "NOT modelled here: the order of steps inside DoPostArticle (Stampfile, StampfileU, rename) — the designate pass observes its "
                  "result (final name vs. name in the stored line) and the property oracle judges it; cursors `time@id` (C06); the listing's paging (C06)"],
     "assumptions": ["creation times in the proved round trip are 10-digit and below 2^31 (Time4 is a signed 32-bit clock)",
                     "designation theorems: the board name contains no '/' (board names are [A-Za-z0-9_.-]); URL_PREFIX and the display name are arbitrary byte strings",
                     "designation histories run at the wall-clock time of the run: names are M.<now..now+3>.A.<random>; G names, the 2^31 boundary and "
                     "out-of-domain names reach GetWebURL / NewArticleSummaryFromRaw only through the pure ops (constructed headers)",
+                    "lookup ops: the index is in time order and holds one entry per (creation time, suffix) — C06's precondition for GetRecord = lookup; "
+                    "`probe` emits the board's lookup only when its index satisfies it",
+                    "Filename_t.Eq does not compare the first two bytes (type letter / delete mark): the id of G.<t>.A.<s> addresses the entry M.<t>.A.<s>. "
+                    "Recorded as a NOTE on every run (not judged): the clause is about ids that were produced from an article, and no G name is produced by the posting path",
                     "the url line is looked for as the LAST line of the stored article (DoPostArticle appends it last); the copy of a cross-post carries the "
                     "source's url line in its body and none of its own — only its #<aidc> reference is judged"],
 }
